@@ -47,18 +47,19 @@ type epSpec struct {
 }
 
 type c12World struct {
-	eps         []*epSpec
-	consumer    string // none running paused
-	pauseAfter  int
-	closeAfter  time.Duration
-	closeOnPark bool
-	writers     int
-	heartbeat   bool
-	shortRetry  bool
-	writeTO     time.Duration
-	hbPeriod    time.Duration
-	readTO      time.Duration // 0 = the node's default
-	apHB        bool          // traffic includes ArduPilot heartbeats from fresh senders: stream requests and their events are in flight
+	eps              []*epSpec
+	consumer         string // none running paused
+	pauseAfter       int
+	closeAfter       time.Duration
+	closeOnPark      bool
+	writers          int
+	heartbeat        bool
+	shortRetry       bool
+	writeTO          time.Duration
+	hbPeriod         time.Duration
+	readTO           time.Duration // 0 = the node's default
+	lingerAfterFault bool
+	apHB             bool // traffic includes ArduPilot heartbeats from fresh senders: stream requests and their events are in flight
 }
 
 // trafficFrame is the k-th frame a transport delivers: a DEBUG message, or (every third frame when apHB is set) an
@@ -122,7 +123,7 @@ func init() {
 
 func TestC12Close(t *testing.T) {
 	rec := evid.New(t, "C12", "generated node configurations (custom, TCP/UDP server with peers, TCP/UDP client against a live or refusing address, serial through the hook) with traffic, gated (blocked) transports, a consumer that is absent, running or paused, concurrent Write* callers and a generated close point (immediately, after a delay, once a writer is parked in the transport); Close must return within a bound far above normal (on a miss two goroutine dumps prove the deadlock), afterwards no goroutine started by the library is alive, every listening port can be bound again, accepted connections are closed, each custom transport was closed exactly once, Events() is closed, and racing/following Write* calls return; non-trivial = close while a goroutine is known to be blocked (parked writer, paused/absent consumer with pending events, client in back-off); distinct by hash of the scenario")
-	rec.Require("blocked-writer", "no-consumer", "paused-consumer", "client-backoff", "open-completes-during-close", "reader-failed-while-writer-blocked", "racing-writers", "tcps", "udps", "tcpc", "udpc", "serial", "custom", "bcast", "stream-request-event-undelivered", "custom-transport-read-failed-before-close", "client-attempt-unanswered", "peer-half-closed")
+	rec.Require("blocked-writer", "no-consumer", "paused-consumer", "client-backoff", "open-completes-during-close", "reader-failed-while-writer-blocked", "racing-writers", "tcps", "udps", "tcpc", "udpc", "serial", "custom", "bcast", "stream-request-event-undelivered", "custom-transport-read-failed-before-close", "client-attempt-unanswered", "peer-half-closed", "close-long-after-a-custom-transport-failed-with-its-writer-blocked", "directed-writes-racing")
 	evid.Check(t, rec, evid.N(250, 700), func(t *rapid.T) {
 		drawNodeInit(t)
 		w := &c12World{}
@@ -151,6 +152,7 @@ func TestC12Close(t *testing.T) {
 		// from "a tick is almost always being handed over" to "rare ticks"
 		w.hbPeriod = time.Duration(rapid.SampledFrom([]int{1, 5, 20, 100, 500, 2000}).Draw(t, "hb_period_us")) * time.Microsecond
 		w.shortRetry = rapid.IntRange(0, 3).Draw(t, "short_retry") > 0
+		w.lingerAfterFault = rapid.IntRange(0, 2).Draw(t, "linger_after_fault") == 0
 		w.readTO = time.Duration(rapid.SampledFrom([]int{0, 0, 300, 1000, 1500}).Draw(t, "read_timeout_ms")) * time.Millisecond
 		w.apHB = rapid.Bool().Draw(t, "ardupilot_heartbeats")
 		var blocked []string
@@ -185,8 +187,14 @@ func TestC12Close(t *testing.T) {
 				}
 			}
 		}
-		rec.Case(len(blocked) > 0, evid.HashS(w.describe()), cls...)
-		if len(blocked) > 0 && rec.WantSample("scenario") {
+		nblocked := 0
+		for _, b := range blocked {
+			if b != "directed-writes-racing" && b != "peer-half-closed" {
+				nblocked++ // the others say that some goroutine was known to be blocked when Close was issued
+			}
+		}
+		rec.Case(nblocked > 0, evid.HashS(w.describe()), cls...)
+		if nblocked > 0 && rec.WantSample("scenario") {
 			rec.Sample("scenario", map[string]interface{}{"scenario": w.describe(), "blocked_at_close": blocked})
 		}
 	})
@@ -366,6 +374,21 @@ func runC12(w *c12World) ([]string, error) {
 	var wg sync.WaitGroup
 	var panicked atomic.Value
 	var calls int64
+	// channels the application knows of (it learns them from open events, so only with a consumer): directed
+	// writes go to them, also while and after the node closes
+	var knownChans []*gomavlib.Channel
+	if rec != nil && w.writers > 0 {
+		rec.WaitFor(20*time.Millisecond, func(recs []sim.Rec) bool {
+			knownChans = knownChans[:0]
+			for _, e := range recs {
+				if o, ok := e.Ev.(*gomavlib.EventChannelOpen); ok {
+					knownChans = append(knownChans, o.Channel)
+				}
+			}
+			return len(knownChans) > 0
+		})
+	}
+	directed := len(knownChans) > 0
 	for i := 0; i < w.writers; i++ {
 		wg.Add(1)
 		go func(i int) {
@@ -381,7 +404,15 @@ func runC12(w *c12World) ([]string, error) {
 					return
 				default:
 				}
-				switch (k + i) % 4 {
+				switch (k + i) % 6 {
+				case 4:
+					if directed {
+						n.WriteMessageTo(knownChans[k%len(knownChans)], &common.MessageDebug{TimeBootMs: uint32(k)}) //nolint:errcheck
+					}
+				case 5:
+					if directed {
+						n.WriteFrameTo(knownChans[k%len(knownChans)], gen1(7, k)) //nolint:errcheck
+					}
 				case 0:
 					n.WriteMessageAll(&common.MessageDebug{TimeBootMs: uint32(k)}) //nolint:errcheck
 				case 1:
@@ -401,6 +432,9 @@ func runC12(w *c12World) ([]string, error) {
 	// close point
 	time.Sleep(w.closeAfter)
 	var blocked []string
+	if directed {
+		blocked = append(blocked, "directed-writes-racing")
+	}
 	if w.closeOnPark {
 		for _, e := range w.eps {
 			if (e.kind == "custom") && e.gate && (w.writers > 0 || w.heartbeat) {
@@ -463,6 +497,12 @@ func runC12(w *c12World) ([]string, error) {
 				e.pipe.ClearReadError()
 			}
 			blocked = append(blocked, "custom-transport-read-failed-before-close")
+			if e.gate && w.lingerAfterFault && e.pipe.WaitParkedWriter(300*time.Millisecond) {
+				// the writer of the failed channel sits in the transport (which a node does not close while it runs)
+				// and the application takes its time - longer than the write timeout - before it closes the node
+				time.Sleep(350 * time.Millisecond)
+				blocked = append(blocked, "close-long-after-a-custom-transport-failed-with-its-writer-blocked")
+			}
 		}
 	}
 	for _, e := range w.eps {
